@@ -28,7 +28,7 @@ CLAIMS = {
         design_ref="5 (C09)"),
     "C16": dict(
         technique="Coq proof (channel creation, removal of the last member, configured channels at start-up and default ranks on join) + create-use-empty-recreate life-cycle sweep over six ways of leaving against the real server",
-        text="Theorems (props/C16.v) for ALL states/configurations: a JOIN to an absent name is always (join, create) and inserts the fresh channel - no topic, key, limit, lists or flags, the joiner "
+        text="PERSIST AND KEEP THEIR RANK LISTS in every reachable world (C16_configured_channels_persist; frame proved through all 41 commands, teardown, KILL delivery and induction over the event list): after any history every channel of the configuration exists, is marked preconfigured - so it is never dropped when it empties - and carries the configured rank lists a joiner's ranks are read from (per step: C16_preconfigured_kept_by_every_step). Theorems (props/C16.v) for ALL states/configurations: a JOIN to an absent name is always (join, create) and inserts the fresh channel - no topic, key, limit, lists or flags, the joiner "
              "founder+operator; remove_user_from_channel of the only member (the single path used by PART, KICK and every session end) deletes an ordinary channel and keeps a preconfigured one, "
              "empty, with its topic; with another member present the channel stays; init contains every configured channel with the configured topic/flags/key/limit/lists, empty, marked "
              "preconfigured, rank lists moved to defaults; a joiner of an existing channel gets exactly the ranks the defaults list for its nick.",
